@@ -147,6 +147,9 @@ def jobs(tier):
         J(L=300, kind='p2p', windows=wins, bystander=False)
         J(L=601, kind='p2p', windows=wins, bystander=False)
     J(L=300, kind='pdu2', windows=[1, 1], bystander=False)
+    # broadcasts that stay on the bus longer than the receivers' segment timeout T1 = 750 ms
+    J(L=601, kind='pdu2', windows=[1, 1], bam_interval='1/10')
+    J(L=4900, kind='pdu2', windows=[1, 1], bystander=False)
     J(L=121, kind='p2p', shape='twoway', L2=70, kind2='p2p', windows=[1, 2])
     for ad in ([0, 0x20, 0x30], [0x10, 0, 0x30], [253, 1, 0]):
         J(L=121, kind='p2p', addrs=ad)
